@@ -38,6 +38,13 @@ def rendered_texts(dot_text):
     return out
 
 
+def _strip_literal(text):
+    """A Literal label is shown in its PROV-N form "value"@lang / "value" %% type: the value inside."""
+    m = re.match(r'^"""(.*)"""(@[A-Za-z-]+|\s*%%.*)$', text, re.S) or \
+        re.match(r'^"(.*)"(@[A-Za-z-]+|\s*%%.*)$', text, re.S)
+    return m.group(1).replace('\\"', '"') if m else text
+
+
 def lex(dot_text, voc=None):
     p = subprocess.run(["dot", "-Tdot_json"], input=dot_text.encode("utf-8"), stdout=subprocess.PIPE,
                        stderr=subprocess.PIPE, timeout=60)
@@ -78,7 +85,8 @@ def lex(dot_text, voc=None):
                 out["nodes"].append({"url": url, "shape": o.get("shape", ""), "el": True,
                                      "kind": ELEMENT_FILL[o.get("fillcolor")], "c": cluster_of.get(g, 0),
                                      "nruns": len(runs),
-                                     "text1": voc.token_ws(runs[0]) if (voc is not None and runs) else []})
+                                     "text1": (voc.token_ws(runs[0]) + voc.token_ws(_strip_literal(runs[0])))
+                                     if (voc is not None and runs) else []})
             else:
                 out["generic"].append(url)
 
